@@ -25,3 +25,11 @@ func verifPoint(name string, a, b uint64) uint64 {
 	}
 	return 0
 }
+
+// verifStr encodes a state name as its first byte (0 for the empty string).
+func verifStr(s string) uint64 {
+	if s == "" {
+		return 0
+	}
+	return uint64(s[0])
+}
